@@ -642,13 +642,45 @@ func (e *Env) applyCrash(powerLoss bool) {
 			continue
 		}
 		f := n.file
+		wasMapped := f.mapped
+		if powerLoss && wasMapped {
+			// power loss with a live mapping: the not-yet-synced tail of the file is everything from the first byte
+			// stored through the mapping since the last msync. As for ordinary files (and as the property words
+			// it) the file is CUT to a solver-chosen byte length inside that tail, or keeps everything.
+			// NOT modelled (outside the property's fault model, see DESIGN 11.3): lost pages reading back as zeros
+			// inside a file that keeps its preallocated length.
+			lo, hi := -1, -1
+			for i := 0; i < len(f.cells) && i < len(f.shadow) && i < f.size; i++ {
+				if f.mappedDirty(i) {
+					if lo < 0 {
+						lo = i
+					}
+					hi = i + 1
+				}
+			}
+			if lo >= 0 {
+				st := e.it.st()
+				name := e.it.path.FreshName("cut:" + p)
+				t := st.Var(name, 32)
+				e.it.path.Assume(st.And(st.Cmp(smt.OpUle, st.Const(32, uint64(lo)), t), st.Cmp(smt.OpUle, t, st.Const(32, uint64(hi)))))
+				cut := int(e.it.path.Concretize(t, "power-loss cut of mapped "+p))
+				e.it.path.notes["cut "+p] = fmt.Sprintf("mapped: unsynced stores in %d..%d, cut at %d", lo, hi, cut)
+				if cut < hi {
+					e.nTorn++
+					for i := cut; i < len(f.cells); i++ {
+						f.cells[i] = uint64(0)
+					}
+					f.size = cut
+				}
+			}
+		}
 		f.mapped = false
 		for i := range f.cells {
 			if _, ok := f.cells[i].(sigbus); ok {
 				f.cells[i] = uint64(0)
 			}
 		}
-		if powerLoss && f.syncedLen < f.size {
+		if powerLoss && !wasMapped && f.syncedLen < f.size {
 			st := e.it.st()
 			name := e.it.path.FreshName("cut:" + p)
 			t := st.Var(name, 32)
